@@ -79,7 +79,7 @@ func NewSpecValidator(schema *spec.Schema, formats strfmt.Registry) *SpecValidat
 	return &SpecValidator{
 		schema:        schema,
 		KnownFormats:  formats,
-		Options:       defaultOpts,
+		Options:       currentDefaultOpts(),
 		schemaOptions: schemaOptions,
 	}
 }
